@@ -120,7 +120,7 @@ func init() {
 		Technique: "deterministic simulation: complete choice-tree sweeps of seeded small wordlist recipes on the scripted tape; exact rational law of typed token sequences vs the product-form reference law",
 		Rule:      "case = one leaf (complete choice path of one WLRecipe.Generate call); evaluations = leaves executed; distinct_nontrivial = distinct configurations swept completely with at least 2 possible passwords",
 		Assumptions: []string{"leaves are weighted by prod 1/n_i (C01)", "title-casing is strings.Title; separator recipes are uniform over their strings (C02)", "word lists respect the statement's premise by construction"},
-		Episodes:    map[string]int{"quick": 2400, "thorough": 24000},
+		Episodes:    map[string]int{"quick": 2400, "thorough": 36000},
 		TwiceEvery:  8,
 		Real:        []string{"WLRecipe.Generate/Entropy", "NewWordList", "separator presets / NewSFFunction / CharRecipe.Generate", "randomUint32n"},
 		Simulated:   []string{"crypto/rand.Reader (choice tape, swept)", "word/alphabet index order (H2/H3)", "NewWordList visit order (H4)"},
